@@ -433,6 +433,7 @@ func ruleNamesOrder(c *Check, r *Repo) {
 	// the same clause by evaluation: after Compile's passes on grammars with actions, captures and
 	// undefined names (link appends rules for them), the names in RuleNames are the rule nodes of
 	// the tree's list in the same order — so rule constants and table indices agree
+	wholeSemantics(c, r, "R-whole-semantics", modelOpts{Ast: true})
 	semBad, semUnd, semN := ruleOrderSemantics(r)
 	switch {
 	case semUnd != "":
